@@ -30,7 +30,12 @@ build_sched_harness() {
   "$VERIF_DIR/build/bin/rewrite" -repo "$VERIF_REPO" -out "$b/rw" -vs "$VERIF_DIR/engine/vs" \
       -pkgs ./scheduler -overlay "$b/overlay.json" > "$b/rewrite.log" 2>&1 || { cat "$b/rewrite.log"; tool_error "rewriter failed"; return 2; }
   harness_modfile "$b"
-  (cd "$VERIF_DIR/harness" && go build -modfile="$b/harness.mod" -overlay "$b/overlay.json" -o "$b/bin/$cmd" "./cmd/$cmd") > "$b/build.log" 2>&1 \
+  local race=()
+  if [ -n "${VERIF_RACE:-}" ]; then
+    # the detector watches the repository's scheduler only (DESIGN.md section 3.6)
+    race=(-race -gcflags=go.uber.org/cff/zzverif/vs=-race=false "-gcflags=verif/harness/...=-race=false")
+  fi
+  (cd "$VERIF_DIR/harness" && go build "${race[@]}" -modfile="$b/harness.mod" -overlay "$b/overlay.json" -o "$b/bin/$cmd${VERIF_RACE:+-race}" "./cmd/$cmd") > "$b/build.log" 2>&1 \
       || { cat "$b/build.log"; tool_error "building $cmd against the rewritten scheduler failed"; return 2; }
 }
 
